@@ -338,6 +338,8 @@ TEMPLATES = [
     ("object", ("Object", m(1), [var("b", m(2)), ("Function", "g", ["p"], ("Block", [m(9), get("p")])), var("a", m(3))]), [], [{}]),
     ("object-field", ("AccessField", ("Object", m(1), [var("b", m(2)), var("a", m(3))]), "a"), [], [{2: [20], 3: [30]}]),
     ("object-method", mcall(("Object", m(1), [("Function", "g", ["p", "q"], ("Block", [m(4), get("q")]))]), "g", m(2), m(3)), [], [{}]),
+    ("method-nested-object", mcall(mcall(("Object", NULL, [("Function", "mk", ["a"], ("Object", m(1), [("Function", "inner", ["b"], ("Block", [m(2), get("b")])), var("f", get("a"))]))]), "mk", m(3)), "inner", m(4)), [], [{}]),
+    ("function-nested-object", mcall(call("mk", m(1)), "inner", m(2)), [("Function", "mk", ["a"], ("Object", NULL, [("Function", "inner", ["b"], ("Block", [m(3), get("b")]))]))], [{}]),
     ("assign-field", ("AssignField", ("Object", m(1), [var("f", m(2))]), "f", m(3)), [], [{}]),
     ("let", ("Block", [var("x", m(1)), var("y", m(2)), assign("x", m(3)), get("x")]), [], [{}]),
     ("let-top", var("g", m(1)), [], [{}]),
